@@ -1,4 +1,114 @@
-import GristModel.Engine
+/-
+C30  Outputs are deterministic across processes: Python dict/set iteration order must not influence
+replies.  For the calc flush of the data engine (`flushAll` = `ActionSummary.convert_deltas_to_actions`,
+`Summary.changesToActions` = `_changes_to_actions`, `stepFinish` = `ActionGroup.flush_calc_changes`):
+the emitted stored / undo actions do not depend on the insertion order of any dict of the action
+summary (the association lists of the model).  Helper lemmas: GristProofs/FlushOrder.lean.
+
+  `Summary.KeysNodup s`   every association list of `s` has distinct keys (it stands for a dict)
+  `Summary.Equiv s s'`    `tableRenames` permuted; `tables` permuted, and per table `presentBefore`,
+                          `presentAfter`, `colRenames` permuted, `colDeltas` permuted with every
+                          column's row-delta list permuted
+-/
+import GristProofs.FlushOrder
 namespace Grist.Doc
-theorem placeholder_C30 : True := trivial
+
+/-- `_changes_to_actions` does not depend on the order of the summary's dicts nor of the row dict -/
+theorem changesToActions_order_invariant {s s' : Summary} (hn : s.KeysNodup) (h : s.Equiv s')
+    (tk ck : String) {delta delta' : List (Nat × Val × Val)} (hd : delta.Perm delta')
+    (hdn : (delta.map (·.1)).Nodup) :
+    s.changesToActions tk ck delta = s'.changesToActions tk ck delta' :=
+  changesToActions_perm_invariant h hn tk ck hd hdn
+
+/-- the flush does not depend on the order of any dict of the summary
+    (distinct keys are needed on one side only; the other side inherits them) -/
+theorem flushAll_perm_invariant' {s s' : Summary} (hn : s.KeysNodup) (h : s.Equiv s')
+    (stored undo : List DocAction) : flushAll s stored undo = flushAll s' stored undo :=
+  flushAll_perm_invariant hn h stored undo
+
+/-- `flush_calc_changes`: the whole resulting engine state is the same -/
+theorem stepFinish_perm_invariant {st : EState} {s' : Summary} (hn : st.summary.KeysNodup)
+    (h : st.summary.Equiv s') : stepFinish st = stepFinish { st with summary := s' } := by
+  simp only [stepFinish, flushAll_perm_invariant hn h]
+
+/-! ### non-vacuity: the same summary built in two different insertion orders -/
+
+def c30A : TableDelta :=
+  { presentBefore := [(7, true), (8, false)], presentAfter := [(7, false), (8, true)],
+    colRenames := [("x", some "x0"), ("y", none)],
+    colDeltas := [("x", [(1, .int 1, .int 2), (2, .int 0, .int 0)]),
+                  ("y", [(3, .null, .null), (2, .str "p", .str "q")])] }
+def c30A' : TableDelta :=
+  { presentBefore := [(8, false), (7, true)], presentAfter := [(8, true), (7, false)],
+    colRenames := [("y", none), ("x", some "x0")],
+    colDeltas := [("y", [(2, .str "p", .str "q"), (3, .null, .null)]),
+                  ("x", [(2, .int 0, .int 0), (1, .int 1, .int 2)])] }
+def c30B : TableDelta := { colDeltas := [("z", [(4, .int 0, .int 1)])] }
+
+def c30S : Summary :=
+  { tables := [("T", c30A), ("U", c30B)], tableRenames := [("T", some "T0"), ("V", none)] }
+def c30S' : Summary :=
+  { tables := [("U", c30B), ("T", c30A')], tableRenames := [("V", none), ("T", some "T0")] }
+
+theorem c30S_keys : c30S.KeysNodup := by
+  refine ⟨by decide, by decide, ?_⟩
+  intro t ht
+  simp only [c30S, List.mem_cons, List.not_mem_nil, or_false] at ht
+  rcases ht with rfl | rfl
+  · exact ⟨by decide, by decide, by decide, by decide, by decide⟩
+  · exact ⟨by decide, by decide, by decide, by decide, by decide⟩
+
+theorem c30A_equiv : c30A.Equiv c30A' := by
+  refine ⟨by decide, by decide, by decide, ?_⟩
+  refine ⟨[("y", [(3, .null, .null), (2, .str "p", .str "q")]),
+           ("x", [(1, .int 1, .int 2), (2, .int 0, .int 0)])],
+          List.Perm.swap _ _ _, ?_⟩
+  exact .cons ⟨rfl, by decide⟩ (.cons ⟨rfl, by decide⟩ .nil)
+
+theorem c30B_equiv : c30B.Equiv c30B :=
+  ⟨.refl _, .refl _, .refl _, ⟨_, .refl _, .cons ⟨rfl, .refl _⟩ .nil⟩⟩
+
+theorem c30S_equiv : c30S.Equiv c30S' := by
+  refine ⟨by decide, [("U", c30B), ("T", c30A)], List.Perm.swap _ _ _, ?_⟩
+  exact .cons ⟨rfl, c30B_equiv⟩ (.cons ⟨rfl, c30A_equiv⟩ .nil)
+
+/-- the theorem applies … -/
+example : flushAll c30S [] [] = flushAll c30S' [] [] :=
+  flushAll_perm_invariant' c30S_keys c30S_equiv [] []
+
+/-! … and indeed both orders evaluate to the same non-trivial flush.  (The kernel cannot unfold
+`List.mergeSort` on lists of two or more elements, so the three key sorts are rewritten first.) -/
+
+theorem sortTU : (["T","U"].mergeSort (fun a b => decide (a ≤ b))) = ["T","U"] := by
+  simp [List.mergeSort]
+theorem sortUT : (["U","T"].mergeSort (fun a b => decide (a ≤ b))) = ["T","U"] := by
+  simp [List.mergeSort]
+theorem sortxy : (["x","y"].mergeSort (fun a b => decide (a ≤ b))) = ["x","y"] := by
+  simp [List.mergeSort]
+theorem sortyx : (["y","x"].mergeSort (fun a b => decide (a ≤ b))) = ["x","y"] := by
+  simp [List.mergeSort]
+
+def c30Expected : List DocAction × List DocAction :=
+  ([updateAction "T" "x" [1] [.int 2], updateAction "T" "y" [2] [.str "q"],
+    updateAction "U" "z" [4] [.int 1]],
+   [updateAction "T" "x" [1] [.int 1], updateAction "U" "z" [4] [.int 0]])
+
+example : flushAll c30S [] [] = c30Expected := by
+  unfold flushAll
+  have k0 : c30S.tables.map (·.1) = ["T","U"] := by decide +kernel
+  have k1 : (c30S.get "T").colDeltas.map (·.1) = ["x","y"] := by decide +kernel
+  rw [k0, sortTU]
+  simp only [List.foldl_cons, List.foldl_nil]
+  rw [k1, sortxy]
+  decide +kernel
+
+example : flushAll c30S' [] [] = c30Expected := by
+  unfold flushAll
+  have k0 : c30S'.tables.map (·.1) = ["U","T"] := by decide +kernel
+  have k1 : (c30S'.get "T").colDeltas.map (·.1) = ["y","x"] := by decide +kernel
+  rw [k0, sortUT]
+  simp only [List.foldl_cons, List.foldl_nil]
+  rw [k1, sortyx]
+  decide +kernel
+
 end Grist.Doc
